@@ -57,8 +57,19 @@ func runLRUSeq(capacity int, ops []lruOp, finalProbe []interface{}, st *lruStats
 	real := valid.NewLRU(capacity)
 	model := ref.NewLRU(capacity)
 	var cbs []cbEntry
+	// the callback is a setting: the one installed last is THE callback. A callback installed before it never fires
+	// again, and installing the recorder anew (every few operations, below) does not make it fire twice.
+	stale := 0
+	real.SetDelCallBackFn(func(k, v interface{}) { stale++ })
 	real.SetDelCallBackFn(func(k, v interface{}) { cbs = append(cbs, cbEntry{k, v}) })
 	check := func(i int) bool {
+		if stale > 0 {
+			kind, got, want, step = "replaced-callback-fired", fmt.Sprint(stale), "0", i
+			return false
+		}
+		if i%5 == 3 {
+			real.SetDelCallBackFn(func(k, v interface{}) { cbs = append(cbs, cbEntry{k, v}) })
+		}
 		if l := real.Len(); l != model.Len() {
 			kind, got, want, step = "len", fmt.Sprint(l), fmt.Sprint(model.Len()), i
 			return false
